@@ -95,10 +95,17 @@ def _nested_names(ir, n):
     return out
 
 
-def dump(ir, g, intern, known):
+def dump(ir, g, intern, known, keep_none=False):
     ns = []
     for n in g:
         ins = list(n.inputs)
+        if keep_none:      # an absent input is the reserved name 0 (interned names start at 1)
+            caps = []
+            for nm in _nested_names(ir, n):
+                if nm in known and intern(nm) not in caps:
+                    caps.append(intern(nm))
+            ns.append((_op(n), n, [0 if iv is None else intern(iv.name) for iv in ins], caps, [intern(o.name) for o in n.outputs]))
+            continue
         while ins and ins[-1] is None:
             ins.pop()
         assert all(iv is not None for iv in ins), "absent optional input in the middle: outside the encoding"
@@ -657,11 +664,6 @@ def tie_transpose_pair_pass(ctx, n_cases):
         stats["nodes_removed"] += removed
         rows.append((before, after, scalars))
     header = common.CASES_HEADER + "From J2O Require Import Graph Redirect ReshapePairPass TransposePairPass TransposeRegion.\nClose Scope Z_scope.\n" + """
-Fixpoint all_proved (fuel : nat) (g : tgraph) : bool :=
-  match fuel with
-  | O => true
-  | S k => match decide_step g with Some a => proved_kind_all g a && all_proved k (apply_taction g a) | None => true end
-  end.
 Definition chk (c : tgraph * (list node * list nat)) : bool :=
   let '(g, (ns, outs)) := c in
   let g' := transpose_pair_pass 60 g in
@@ -670,7 +672,7 @@ Definition kinds (l : list (tgraph * (list node * list nat))) : list nat :=
   let tr := map (fun c => pass_trace 60 (fst c)) l in
   map (fun k => length (filter (Nat.eqb k) (concat tr))) (seq 1 7)
   ++ [length (filter (fun t => negb (match t with [] => true | _ => false end)) tr);
-      length (filter (fun c => negb (match pass_trace 60 (fst c) with [] => true | _ => false end) && all_proved 60 (fst c)) l)].
+      length (filter (fun c => negb (match pass_trace 60 (fst c) with [] => true | _ => false end) && kinds_along 60 (fst c)) l)].
 """
 
     def render(chunk, off):
@@ -707,4 +709,273 @@ Definition kinds (l : list (tgraph * (list node * list nat))) : list nat :=
     ctx.coverage["transpose_pair_tie"] = dict(stats)
     if crashes:
         ctx.coverage["transpose_pair_tie"]["raised_examples"] = [c[1] for c in crashes[:3]]
+    return rows, bad
+
+
+# ------------------------------------------------------------------ remove_redundant_transpose_reduce_ir
+def _enc_z(z):
+    return 2 * (-z) - 1 if z < 0 else 2 * z
+
+
+def _reduce_attrs(ir, n):
+    """attribute payload of a node for TransposeReducePass.v"""
+    if n.op_type == "Transpose":
+        perm = n.attributes.get("perm")
+        return [1] + [int(x) for x in perm.as_ints()] if (perm is not None and perm.type == ir.AttributeType.INTS) else []
+    if n.op_type == "ReduceMean":
+        kd = n.attributes.get("keepdims")
+        kdv = None
+        if kd is not None:
+            if kd.type == ir.AttributeType.INT:
+                kdv = int(kd.as_int())
+            elif kd.type == ir.AttributeType.INTS and tuple(kd.as_ints()):
+                kdv = int(tuple(kd.as_ints())[0])
+        ax = n.attributes.get("axes")
+        if ax is not None and ax.type == ir.AttributeType.INTS:
+            return [0 if kdv is None or kdv < 0 else kdv + 1, 1] + [_enc_z(int(a)) for a in ax.as_ints()]
+        return [0 if kdv is None or kdv < 0 else kdv + 1, 0]
+    return []
+
+
+def _rand_reduce_graph(ir, rng, stats):
+    b = _Builder(ir, rng)
+    rank = rng.choice([2, 3, 3, 4])
+    for _ in range(rng.randint(1, 2)):
+        b.inp((2, 3, 4, 5)[:rank])
+    must_out = []
+    for _ in range(rng.randint(1, 3)):
+        p = list(rng.choice(_PERMS[rank]))
+        src = rng.choice(b.vals)
+        dom = lambda pr=0.06: rng.choice(["custom", "ai.onnx"]) if rng.random() < pr else ""      # noqa: E731
+        t1 = _tnode(b, ir, src, p if rng.random() < 0.95 else None, dom())
+        k = rng.random()
+        axes = sorted(rng.sample(range(-rank, rank + (1 if rng.random() < 0.08 else 0)), rng.randint(0, min(3, rank))))
+        attrs = []
+        kd = rng.random()
+        if kd < 0.8:
+            attrs.append(ir.Attr("keepdims", ir.AttributeType.INT, 1))
+        elif kd < 0.9:
+            attrs.append(ir.Attr("keepdims", ir.AttributeType.INT, 0))
+        ins = [t1]
+        if k < 0.45:
+            dt = np.int64 if rng.random() < 0.85 else (np.int32 if rng.random() < 0.5 else np.uint8)
+            ins.append(b.const(np.asarray([a % rank if dt is np.uint8 else a for a in axes], dt)))
+        elif k < 0.55:
+            ins.append(b.inp((len(axes),)))                       # dynamic axes
+        elif k < 0.6:
+            ins.append(None)                                      # explicitly absent
+        elif k < 0.9:
+            attrs.append(ir.Attr("axes", ir.AttributeType.INTS, axes))
+        red_op = "ReduceMean" if rng.random() < 0.9 else rng.choice(["ReduceSum", "ReduceMax"])
+        outs = [b.val(b.fresh(), None)]
+        rn = ir.Node(dom(), red_op, ins, outputs=outs, name=b.fresh("n") if rng.random() < 0.7 else "", attributes=attrs)
+        b.nodes.append(rn)
+        b.vals.extend(outs)
+        r = outs[0]
+        mid = r
+        if rng.random() < 0.08:
+            mid = b.node("Relu", [r], None)                        # something between the reducer and T2
+        q = _inv(p) if rng.random() < 0.85 else list(rng.choice(_PERMS[rank]))
+        t2 = _tnode(b, ir, mid, q if rng.random() < 0.95 else None, dom())
+        must_out.append(t2)
+        pr = rng.random()
+        if pr < 0.08:
+            must_out.append(r)
+            stats["reducer_out_is_output"] += 1
+        elif pr < 0.16:
+            b.if_capturing([r])
+            stats["reducer_out_captured"] += 1
+        elif pr < 0.26:
+            must_out.append(b.node(rng.choice(["Relu", "Neg"]), [r], None))
+            stats["reducer_extra_consumer"] += 1
+        if rng.random() < 0.3:
+            must_out.append(b.node("Relu", [t1], None))
+        if rng.random() < 0.4:
+            must_out.append(b.node("Relu", [t2], None))
+    outs = []
+    for v in must_out:
+        if v not in outs and (rng.random() < 0.85 or not v.consumers()):
+            outs.append(v)
+    return b, b.graph(outs or [b.vals[-1]])
+
+
+def tie_transpose_reduce_pass(ctx, n_cases):
+    import collections
+    import onnx_ir as ir
+    from jax2onnx.converter import ir_optimizations as opt
+    rng = ctx.rng
+    stats = collections.Counter()
+    rows = []
+    for c in range(n_cases):
+        b, g = _rand_reduce_graph(ir, rng, stats)
+        table = {}
+
+        def intern(name):
+            return table.setdefault(name, len(table) + 1)
+        known = {v.name for v in b.inputs + b.consts + b.vals}
+
+        def snapshot():
+            ns, outs = dump(ir, g, intern, known, keep_none=True)
+            nodes = [(op, _reduce_attrs(ir, n) if "::" not in op or op.startswith("ai.onnx::") else _reduce_attrs(ir, n), i, cc, o) for op, n, i, cc, o in ns]
+            consts = {}
+            for v in list(g.initializers.values()) + [iv for n in g for iv in n.inputs if iv is not None]:
+                cv = opt._value_const_ints(v)
+                if cv is not None:
+                    consts[intern(v.name)] = [int(x) for x in cv]
+            return (nodes, outs), consts
+        before, consts_b = snapshot()
+        opt.remove_redundant_transpose_reduce_ir(g)
+        # two distinct Value objects under one name: the created axes initializers collide (a finding of its own)
+        by_name = {}
+        for v in [iv for n in g for iv in n.inputs if iv is not None]:
+            by_name.setdefault(v.name, set()).add(id(v))
+        clash = sorted(nm for nm, ids in by_name.items() if len(ids) > 1)
+        if clash:
+            stats["axes_initializer_name_collisions"] += 1
+            ctx.violate("remove_redundant_transpose_reduce_ir:axes-initializer-name-collision",
+                        f"after the real pass two different values are called {clash[0]!r} (case {c}): the re-mapped axes initializers of two "
+                        "folded ReduceMean nodes with the same node name share one name",
+                        {"tie": "transpose_reduce", "case": c, "seed": ctx.seed, "nodes": [list(map(str, n)) for n in before[0][0]]})
+            continue
+        after, consts_a = snapshot()
+        stats["graphs_rewritten"] += int(len(before[0]) != len(after[0]))
+        stats["nodes_removed"] += len(before[0]) - len(after[0])
+        rows.append((before, consts_b, after, consts_a))
+    header = common.CASES_HEADER + "From J2O Require Import Graph Redirect ReshapePairPass TransposePairPass TransposeReducePass.\nClose Scope Z_scope.\n" + """
+Definition chk (c : rgraphT * rgraphT) : bool :=
+  let '(g, h) := c in
+  let g' := tr_pass 40 g in
+  list_eqb node_eqb (map (norm_rm g') (rt_nodes g')) (map (norm_rm h) (rt_nodes h)) && leqb (rt_outputs g') (rt_outputs h).
+"""
+
+    def lit_nodes(ns):
+        return "[" + "; ".join(f'mkNode "{op}"%string {nl(a)} {nl(i)} {nl(cc)} {nl(o)}' for op, a, i, cc, o in ns) + "]"
+
+    def rt(gr, consts):
+        return f"(mkRT {lit_nodes(gr[0])} {nl(gr[1])} {coq_fn(consts, '(list Z)', lambda v: '(Some [' + '; '.join(f'({x})%Z' for x in v) + '])')})"
+
+    def render(chunk, off):
+        items = [f"({rt(bf, cb)}, {rt(af, ca)})" for bf, cb, af, ca in chunk]
+        return "Definition cs := [\n" + ";\n".join(items) + "].\nEval vm_compute in bad_idx_ chk 0 cs.\n"
+    bad, err = collect_bad(*coq_eval_batches(ctx, "c02_transpose_reduce", header, rows, render))
+    ctx.oblige(f"tie:TransposeReducePass.v tr_pass == remove_redundant_transpose_reduce_ir ({len(rows)} random graphs, "
+               f"{stats['graphs_rewritten']} rewritten, {stats['nodes_removed']} nodes removed; graphs compared up to the names of the created axes initializers)",
+               err is None and bad == [], "tie",
+               err if err is not None else f"model and implementation differ on cases {bad[:6]}: {[(rows[i][0], rows[i][2]) for i in bad[:2]]}")
+    ctx.coverage["transpose_reduce_tie"] = dict(stats)
+    return rows, bad
+
+
+# ------------------------------------------------------------------ remove_redundant_transpose_add_forests_ir
+def _rand_addforest_graph(ir, rng, stats):
+    if rng.random() < 0.25:
+        return _rand_transpose_graph(ir, rng, stats)
+    b = _Builder(ir, rng)
+    rank = rng.choice([2, 3, 3, 4])
+    for _ in range(rng.randint(1, 3)):
+        b.inp((2, 3, 4, 5)[:rank])
+    must_out = []
+    for _ in range(rng.randint(1, 2)):
+        p = list(rng.choice(_PERMS[rank]))
+        selfinv = rng.random() < 0.15
+        if selfinv and rank >= 2:
+            p = [[1, 0], [0, 2, 1], [0, 1, 3, 2]][rank - 2]
+        leaves = [_tnode(b, ir, rng.choice(b.vals), p if rng.random() < 0.93 else list(rng.choice(_PERMS[rank])),
+                         rng.choice(["custom", "ai.onnx"]) if rng.random() < 0.04 else "") for _i in range(rng.randint(1, 4))]
+        adds = []
+        root = b.node("Add", [rng.choice(leaves), rng.choice(leaves)] if rng.random() < 0.9 else [rng.choice(leaves), rng.choice(b.vals)], None)
+        adds.append(root)
+        for j in range(rng.randint(0, 4)):
+            x = rng.choice(adds)
+            r = rng.random()
+            if r < 0.55:
+                y = rng.choice(leaves)
+            elif r < 0.8:
+                y = rng.choice(adds)
+            elif r < 0.9:
+                y = _tnode(b, ir, rng.choice(adds), p, "")        # a Transpose of a forest value feeding the forest again
+            else:
+                y = rng.choice([b.scalar_const(), rng.choice(b.vals)])
+            op = "Add" if rng.random() < 0.92 else rng.choice(["Mul", "Sub"])
+            v = b.node(op, [x, y] if rng.random() < 0.6 else [y, x], None, domain=rng.choice(["custom", "ai.onnx"]) if rng.random() < 0.04 else "")
+            adds.append(v)
+        for v in adds:
+            r = rng.random()
+            if not v.consumers() or r < 0.35:
+                q = _inv(p) if rng.random() < 0.88 else list(rng.choice(_PERMS[rank]))
+                must_out.append(_tnode(b, ir, v, q if rng.random() < 0.96 else None, ""))
+            if r > 0.93:
+                must_out.append(b.node(rng.choice(["Relu", "Neg"]), [v], None))
+                stats["extra_consumer"] += 1
+            elif r > 0.88:
+                must_out.append(v)
+                stats["intermediate_is_output"] += 1
+            elif r > 0.83:
+                b.if_capturing([v])
+                stats["intermediate_captured"] += 1
+        for t in leaves:
+            if rng.random() < 0.15:
+                must_out.append(b.node("Relu", [t], None) if rng.random() < 0.6 else t)
+    outs = []
+    for v in must_out:
+        if v not in outs and (rng.random() < 0.85 or not v.consumers()):
+            outs.append(v)
+    return b, b.graph(outs or [b.vals[-1]])
+
+
+def tie_transpose_add_forest_pass(ctx, n_cases):
+    import collections
+    import onnx_ir as ir
+    from jax2onnx.converter import ir_optimizations as opt
+    rng = ctx.rng
+    stats = collections.Counter()
+    rows = []
+    for c in range(n_cases):
+        b, g = _self_inverse_addchain_graph(ir, rng, c) if c < 6 else _rand_addforest_graph(ir, rng, stats)
+        table = {}
+
+        def intern(name):
+            return table.setdefault(name, len(table) + 1)
+        known = {v.name for v in b.inputs + b.consts + b.vals}
+        before = dump(ir, g, intern, known)
+        scalars = {intern(v.name): True for v in b.inputs + b.consts + b.vals if opt._is_scalar_const_value(v)}
+        ort_before = _ort_outputs(_model_bytes(ir, g), c) if c < 6 else None
+        try:
+            opt.remove_redundant_transpose_add_forests_ir(g)
+        except Exception as e:
+            msg = str(e)
+            tag = "does not belong to this graph" if "does not belong to this graph" in msg else type(e).__name__
+            stats["real_pass_raised"] += 1
+            ctx.violate(f"remove_redundant_transpose_add_forests_ir:raises:{tag}",
+                        f"the real pass raised {type(e).__name__} on a graph of the add-forest tie (case {c}): {msg[:160]}",
+                        {"tie": "transpose_add_forest", "case": c, "seed": ctx.seed, "nodes": [list(map(str, n)) for n in before[0]]})
+            continue
+        after = dump(ir, g, intern, known)
+        if c < 6:
+            ort_after = _ort_outputs(_model_bytes(ir, g), c)
+            if not _same_outputs(ort_before, ort_after):
+                ctx.violate("remove_redundant_transpose_add_forests_ir:region-self-inverse",
+                            f"the real pass changes the model's outputs on crafted graph {c}", {"tie": "transpose_add_forest", "case": c})
+        stats["graphs_rewritten"] += int(before != after)
+        stats["nodes_removed"] += len(before[0]) - len(after[0])
+        rows.append((before, after, scalars))
+    header = common.CASES_HEADER + "From J2O Require Import Graph Redirect ReshapePairPass TransposePairPass TransposeAddForestPass.\nClose Scope Z_scope.\n" + """
+Definition chk (c : tgraph * (list node * list nat)) : bool :=
+  let '(g, (ns, outs)) := c in
+  let g' := addforest_pass 60 g in
+  list_eqb node_eqb (tg_nodes g') ns && leqb (tg_outputs g') outs.
+"""
+
+    def render(chunk, off):
+        items = []
+        for before, after, scalars in chunk:
+            tg = f"(mkTG {coq_nodes(before[0], True)} {nl(before[1])} {coq_fn(scalars, 'bool', lambda v: 'true', default='false')})"
+            items.append(f"({tg}, ({coq_nodes(after[0], True)}, {nl(after[1])}))")
+        return "Definition cs := [\n" + ";\n".join(items) + "].\nEval vm_compute in bad_idx_ chk 0 cs.\n"
+    bad, err = collect_bad(*coq_eval_batches(ctx, "c02_transpose_add_forest", header, rows, render))
+    ctx.oblige(f"tie:TransposeAddForestPass.v addforest_pass == remove_redundant_transpose_add_forests_ir ({len(rows)} random graphs, "
+               f"{stats['graphs_rewritten']} rewritten, {stats['nodes_removed']} nodes removed)",
+               err is None and bad == [], "tie",
+               err if err is not None else f"model and implementation differ on cases {bad[:6]}: {[rows[i][:2] for i in bad[:2]]}")
+    ctx.coverage["transpose_add_forest_tie"] = dict(stats)
     return rows, bad
